@@ -28,7 +28,8 @@ def run_history(ctx, exe, rng, idx):
         for ag in ags:
             ag.cmd("inject 30")        # half of the histories: 30% of sem_wait/sem_open/shm_open calls return EINTR first
     base = "vfC07-%d-%d-%d" % (os.getpid(), ctx.seed, idx)
-    names = [base + "-" + c for c in "ab"[:rng.choice([1, 2])]]
+    names, shape = agents.name_family(rng, base, rng.choice([1, 2]))
+    ctx.coverage.setdefault("name_shapes", collections.Counter())[shape] += 1
     inst = {n: None for n in names}            # name -> dict(size, img, byarg)
     hs = {}                                    # (agent, hid) -> dict(name, rep, perm, owner, creator, inst)
     log = []
@@ -57,6 +58,21 @@ def run_history(ctx, exe, rng, idx):
                 a, h = rng.choice(free_slots)
                 n = rng.choice(names)
                 exists = inst[n] is not None
+                if not exists and rng.random() < 0.15:
+                    # a creation that cannot succeed (nothing to map / larger than any file): must fail and leave no name behind,
+                    # so that the next p_shm_new is a fresh creation of its own size
+                    bad = rng.choice([0, 2 ** 63 - 1, 2 ** 62])
+                    what = "new agent%d h%d %s size=%d (cannot succeed)" % (a, h, n[-1], bad)
+                    log.append(what)
+                    res = ags[a].cmd("shmnew %d %s %d w" % (h, n, bad))
+                    st["impossible_creations"] += 1
+                    if res.startswith("ok"):
+                        ags[a].cmd("shmown %d" % h)
+                        ags[a].cmd("shmfree %d" % h)
+                    if os.path.exists(agents.shm_path(n)) or os.path.exists(agents.shm_lock_path(n)):
+                        ok = fail("history symptom=failed-creation-leaves-name", "p_shm_new(size %d) on a fresh name %s but the name (segment or lock semaphore) is still present afterwards" % (bad, "returned a handle that was then freed by an owner" if res.startswith("ok") else "failed"))
+                        break
+                    continue
                 arg = rng.choice(SIZES) if not exists else rng.choice([inst[n]["size"], inst[n]["size"], rng.choice(SIZES), 0])
                 perm = "r" if (exists and rng.random() < 0.2) else "w"
                 what = "new agent%d h%d %s size=%d %s" % (a, h, n[-1], arg, perm)
